@@ -373,6 +373,27 @@ func init() {
 			t := ex.eng.namedType("golang.org/x/text/encoding/unicode", "utf16Encoding")
 			return IfaceV{T: t, V: ex.zero(t)}
 		},
+		"(io.discard).ReadFrom": func(ex *Exec, fn *ssa.Function, args []Value) Value {
+			// io.Discard.ReadFrom: read until EOF into a scratch buffer (the real one comes from a sync.Pool)
+			tf := ex.tf
+			r := args[1].(IfaceV)
+			buf := ex.newBytes(tf.Const(64, 8192), newLayer(layer{kind: lArr, whole: true, arr: "discardbuf"}))
+			sl := SliceV{Arr: buf, Off: tf.Const(64, 0), Len: buf.n, Cap: buf.n}
+			total := tf.Const(64, 0)
+			for i := 0; ; i++ {
+				if i > ex.unwind {
+					panic(unsupported{"io.Discard.ReadFrom: too many reads"})
+				}
+				res := ex.invoke(r, "Read", sl).(TupleV)
+				total = tf.Add(total, res[0].(IntV).T)
+				if err := res[1].(IfaceV); err.T != nil {
+					if ex.ifaceEq(err, ex.sentinel("io.EOF").(IfaceV)) {
+						return TupleV{IntV{total}, IfaceV{}}
+					}
+					return TupleV{IntV{total}, err}
+				}
+			}
+		},
 		"runtime.GC":                    zeroResult,
 		"runtime.Gosched":               zeroResult,
 		"runtime.KeepAlive":             zeroResult,
